@@ -70,6 +70,9 @@ func (c *vpConn) Read(p []byte) (int, error) {
 			return 0, vpErrClosed
 		}
 		chunk, ok := <-c.in
+		if c.closed > 0 {
+			return 0, vpErrClosed
+		}
 		if !ok {
 			return 0, io.EOF
 		}
@@ -325,6 +328,9 @@ func vpSmuxAcceptStream(sess *smux.Session) (*smux.Stream, error) {
 	s.accepts++
 	if s.dead {
 		s.deadAccepts++
+		if s.deadAccepts > 3 { // do not unroll an endless loop: it is already a violation
+			vp.Assert(false, "dead-session-not-serviced-in-a-busy-loop")
+		}
 		return nil, s.deadErr
 	}
 	st, ok := <-s.offered
@@ -340,6 +346,26 @@ func vpSmuxSessionRemoteAddr(sess *smux.Session) net.Addr { return vpAddr{"sessi
 
 func vpStreamRead(st *smux.Stream, p []byte) (int, error)  { return vpFindStream(st).conn.Read(p) }
 func vpStreamWrite(st *smux.Stream, p []byte) (int, error) { return vpFindStream(st).conn.Write(p) }
+func vpStreamWriteTo(st *smux.Stream, w io.Writer) (int64, error) { // what io.Copy uses when the source is a stream
+	c := vpFindStream(st).conn
+	var n int64
+	buf := make([]byte, 64)
+	for {
+		k, err := c.Read(buf)
+		if k > 0 {
+			if _, werr := w.Write(buf[:k]); werr != nil {
+				return n, werr
+			}
+			n += int64(k)
+		}
+		if err == io.EOF {
+			return n, nil
+		}
+		if err != nil {
+			return n, err
+		}
+	}
+}
 func vpStreamClose(st *smux.Stream) error                  { return vpFindStream(st).conn.Close() }
 func vpStreamRemoteAddr(st *smux.Stream) net.Addr          { return vpAddr{vpFindStream(st).conn.name} }
 func vpStreamLocalAddr(st *smux.Stream) net.Addr           { return vpAddr{"stream-local"} }
